@@ -29,20 +29,20 @@
 (* on all programs without the hazards relevant to it (Strict = FALSE) and *)
 (* exhibited as an invariant violation with Strict = TRUE.                 *)
 (***************************************************************************)
-EXTENDS Naturals, Sequences, FiniteSets, TLC, Json
+EXTENDS Naturals, Sequences, FiniteSets, TLC, Json, EventProtocol
 
-CONSTANTS MaxLen,     \* lines per program
-          MaxDepth,   \* deepest indentation of a line
-          Names,      \* ordinary bound names, a subset of {"f","g","h"}
-          Alphabet,   \* set of <<kind, variant>> the environment may emit
+CONSTANTS Domains,    \* set of [name, alpha, len, depth, names]: statement alphabet (set of <<kind, variant>>), lines per
+                      \* program, deepest indentation, ordinary bound names (a subset of {"f","g","h"}); one TLC run
+                      \* explores all of them (a single JVM: the machine-wide number of TLC processes is bounded)
+          MaxLen, MaxDepth, Names, Alphabet,   \* the one-domain set CfgDomain, for cfgs that give the bounds literally
           Strict,     \* TRUE: clauses are demanded on hazardous programs too (exhibits the defects)
           Emit        \* TRUE: print one CASE per visited program
 
-VARIABLES prog, phase,                                             \* environment
+VARIABLES dom, prog, phase,                                        \* environment
           cursor, stack, guarded, tree, imps, exps, stash,         \* visitor
           events, placed, outcome, flagok,                         \* observation
           res                                                      \* computed once at the end (see lesson on memoisation)
-vars == <<prog, phase, cursor, stack, guarded, tree, imps, exps, stash, events, placed, outcome, flagok, res>>
+vars == <<dom, prog, phase, cursor, stack, guarded, tree, imps, exps, stash, events, placed, outcome, flagok, res>>
 
 NoAll == <<"<no __all__>">>
 Nil == 0
@@ -76,17 +76,36 @@ AlphaAll == AlphaBind \cup AlphaCond \cup AlphaGuard \cup AlphaGuardDeep \cup Al
 AlphaSmoke == {<<"def", "none">>, <<"class", "none">>, <<"assign", "plain">>, <<"if", "TC">>, <<"if", "other">>, <<"init", "-">>,
                <<"def", "overload">>, <<"def", "staticmethod">>}
 
+Dom(name, alpha, len, depth, names) == [name |-> name, alpha |-> alpha, len |-> len, depth |-> depth, names |-> names]
+CfgDomain == {Dom("cfg", Alphabet, MaxLen, MaxDepth, Names)}
+\* the quick tier drops a few variants from the longer domains (each of them still occurs in "all")
+QuickDomains ==
+  {Dom("all", AlphaAll, 2, 1, {"f", "g"}), Dom("bind", AlphaBind, 3, 2, {"f", "g"}),
+   Dom("cond", AlphaCond \ {<<"with", "-">>, <<"import", "from">>}, 4, 2, {"f"}),
+   Dom("guard", AlphaGuard, 3, 2, {"f", "g"}),
+   Dom("guard-deep", AlphaGuardDeep \ {<<"with", "-">>, <<"else", "elif">>}, 4, 3, {"f"}),
+   Dom("deco", AlphaDeco \ {<<"def", "async">>, <<"def", "classmethod">>, <<"def", "cache">>, <<"def", "propabstract">>}, 3, 2, {"f"}),
+   Dom("imp", AlphaImp, 3, 2, {"f"}),
+   Dom("attr", AlphaAttr \ {<<"assign", "classvar">>, <<"assign", "selfann">>}, 3, 2, {"f", "g"})}
+ThoroughDomainsA ==
+  {Dom("all", AlphaAll, 2, 1, {"f", "g"}), Dom("deco", AlphaDeco, 3, 2, {"f", "g"}), Dom("bind", AlphaBind, 4, 2, {"f", "g"}),
+   Dom("cond", AlphaCond \ {<<"with", "-">>, <<"import", "from">>}, 5, 2, {"f"}), Dom("imp", AlphaImp, 4, 2, {"f"})}
+ThoroughDomainsB ==
+  {Dom("guard-deep", AlphaGuardDeep \ {<<"with", "-">>, <<"else", "elif">>}, 5, 3, {"f"}), Dom("guard", AlphaGuard, 4, 2, {"f"}),
+   Dom("attr", AlphaAttr \ {<<"assign", "classvar">>, <<"assign", "selfann">>}, 4, 2, {"f", "g"}), Dom("attr3", AlphaAttr, 3, 2, {"f", "g"})}
+\* small domains in which each known defect shows (Strict = TRUE)
+DefectDomains == {Dom("smoke", AlphaSmoke, 3, 2, {"f"}), Dom("guard-deep", AlphaGuardDeep, 4, 2, {"f"}), Dom("bind", AlphaBind, 3, 2, {"f"})}
 NameOrder == <<"f", "g", "h">>
 Other(n) == IF n = "f" THEN "g" ELSE "f"        \* second target of  n = other = 1
 
 NameChoices(k, x) ==
   IF k = "import" /\ x = "star" THEN {"zz/*"}
-  ELSE IF k \in {"def", "class", "import", "assign"} THEN Names
+  ELSE IF k \in {"def", "class", "import", "assign"} THEN dom.names
   ELSE IF k = "init" THEN {"__init__"}
   ELSE IF k = "all" THEN {"__all__"}
   ELSE {"-"}
 
-Lines == UNION {{[k |-> a[1], x |-> a[2], n |-> n, d |-> d] : n \in NameChoices(a[1], a[2]), d \in 0..MaxDepth} : a \in Alphabet}
+Lines == UNION {{[k |-> a[1], x |-> a[2], n |-> n, d |-> d] : n \in NameChoices(a[1], a[2]), d \in 0..dom.depth} : a \in dom.alpha}
 
 UsedNames(l) == IF l.k = "assign" /\ l.x = "multi" THEN {l.n, Other(l.n)} ELSE {l.n}
 Opener(l) == l.k \in {"class", "init", "if", "else", "try", "except", "with"}
@@ -161,26 +180,35 @@ Continues ==   \* the line is the `else:` / `elif` / `except` part of the compou
           \/ (Line.k = "except" /\ Top.t = "try")
 NeedPop == Len(stack) > 1 /\ (IF EOF THEN TRUE ELSE Line.d < Top.bd /\ ~Continues)
 
+AttrParent0 == stack[MaxOf({q \in 1..(CurIdx - 1) : stack[q].t \in {"module", "class", "init"}})].l    \* the class owning the __init__ on top
 Mem(s, n, l, k, lab, p, ov) == [s |-> s, n |-> n, l |-> l, k |-> k, rt |-> ~guarded, lab |-> lab, p |-> p, ov |-> ov]
 Existing(T, s, n) == {m \in T : m.s = s /\ m.n = n}
 SetMember(T, r) == {m \in T : ~(m.s = r.s /\ m.n = r.n)} \cup {r}
-Ev(e, l, n) == [e |-> e, l |-> l, n |-> n]
+\* the parent of an object announced now: Visitor.current, except for instance attributes (the class of the __init__)
+EvParent(l) == IF SelfAssign(prog[l]) /\ CurFrame.t = "init" THEN AttrParent0 ELSE Cur
+\* identity of an object for the event protocol: its line (1 = the module; the second target of a = b = ... gets its own)
+Oid(l, second) == 2 * l + 1 + (IF second THEN 1 ELSE 0)
+Ev(e, l, n) ==   \* event about the object created at line l under the name n, announced while `current` is Cur
+  [e |-> e, l |-> l, n |-> n,
+   o |-> Oid(l, IF l = 0 THEN FALSE ELSE prog[l].k = "assign" /\ prog[l].x = "multi" /\ n # prog[l].n),
+   p |-> IF l = 0 THEN NoObj ELSE IF e = "members" THEN NoObj ELSE Oid(EvParent(l), FALSE),
+   c |-> IF l = 0 THEN TRUE ELSE prog[l].k = "class"]
 Push(t, l, bd) == Append(stack, [t |-> t, l |-> l, bd |-> bd, part |-> "body"])
-Advance == cursor' = cursor + 1 /\ UNCHANGED <<prog, phase, res>>
+Advance == cursor' = cursor + 1 /\ UNCHANGED <<dom, prog, phase, res>>
 
 \* -- returns from compound statements ------------------------------------------------------------------
 LeaveIf ==            \* visit_if, last line:  self.type_guarded = False   (whatever it was before)
   /\ NeedPop /\ Top.t = "if"
   /\ guarded' = FALSE /\ stack' = SubSeq(stack, 1, Len(stack) - 1)
-  /\ UNCHANGED <<prog, phase, cursor, tree, imps, exps, stash, events, placed, outcome, flagok, res>>
+  /\ UNCHANGED <<dom, prog, phase, cursor, tree, imps, exps, stash, events, placed, outcome, flagok, res>>
 LeaveClass ==         \* visit_classdef: on_members, on_class_members, current = current.parent
   /\ NeedPop /\ Top.t = "class"
   /\ events' = Append(events, Ev("members", Top.l, prog[Top.l].n)) /\ stack' = SubSeq(stack, 1, Len(stack) - 1)
-  /\ UNCHANGED <<prog, phase, cursor, guarded, tree, imps, exps, stash, placed, outcome, flagok, res>>
+  /\ UNCHANGED <<dom, prog, phase, cursor, guarded, tree, imps, exps, stash, placed, outcome, flagok, res>>
 LeaveOther ==         \* __init__ body (current = current.parent, no event), try / with / unvisited def body
   /\ NeedPop /\ Top.t \in {"init", "skip", "try", "with"}
   /\ stack' = SubSeq(stack, 1, Len(stack) - 1)
-  /\ UNCHANGED <<prog, phase, cursor, guarded, tree, imps, exps, stash, events, placed, outcome, flagok, res>>
+  /\ UNCHANGED <<dom, prog, phase, cursor, guarded, tree, imps, exps, stash, events, placed, outcome, flagok, res>>
 
 Ready == phase = "run" /\ outcome = "ok" /\ ~EOF /\ ~NeedPop
 Visiting == Ready /\ Top.t # "skip"
@@ -262,7 +290,7 @@ AttrNames ==
   IF CurFrame.t = "init" THEN (IF SelfAssign(Line) THEN <<Line.n>> ELSE <<>>)
   ELSE IF Line.x = "attr" \/ SelfAssign(Line) THEN <<>>             \* dotted target: `if "." in name: continue`
   ELSE IF Line.x = "multi" THEN <<Line.n, Other(Line.n)>> ELSE <<Line.n>>
-AttrParent == IF CurFrame.t = "init" THEN stack[MaxOf({q \in 1..(CurIdx - 1) : stack[q].t \in {"module", "class", "init"}})].l ELSE Cur
+AttrParent == IF CurFrame.t = "init" THEN AttrParent0 ELSE Cur
 NodeParentIsIfOrHandler == Top.t = "if" \/ (Top.t = "try" /\ Top.part = "else")
 AttrStep(acc, name) ==
   LET ex == Existing(acc.T, AttrParent, name) IN
@@ -344,7 +372,7 @@ Surv(s, n) == MaxOf(Eff(s, n))                                          \* later
 RefGuarded(i) == LexGuarded(i)
 RefKind(i) == CASE P[i].k = "class" -> "class" [] P[i].k = "import" -> "alias" [] P[i].k \in {"assign", "all"} -> "attribute"
                 [] P[i].k = "def" /\ "property" \in DecoLab(P[i].x) -> "attribute" [] OTHER -> "function"
-AllNames == Names \cup {"__init__", "__all__", "zz/*"}
+AllNames == dom.names \cup {"__init__", "__all__", "zz/*"}
 Scopes == {0} \cup {i \in 1..N : P[i].k = "class"}
 \* setters written after the surviving property (well-formed programs: the name is then still that property)
 Setters(s, n, i) == {j \in (i + 1)..N : P[j].k = "def" /\ P[j].x = "setter" /\ P[j].n = n /\ BindScope(j) = s}
@@ -359,11 +387,11 @@ RefAll == {RefMember(t[1], t[2]) : t \in {u \in Scopes \X AllNames : B(u[1], u[2
 RECURSIVE Reach(_, _)
 Reach(T, fuel) == IF fuel = 0 THEN {m \in T : m.s = 0}
                   ELSE LET R == Reach(T, fuel - 1) IN {m \in T : m.s = 0 \/ \E c \in R : c.l = m.s /\ c.k \in {"class", "function"}}
-RefTree == Reach(RefAll, MaxDepth + 1)
+RefTree == Reach(RefAll, dom.depth + 1)
 LastImport(s, n) ==
   LET S == {i \in 1..N : P[i].k = "import" /\ P[i].x # "star" /\ P[i].n = n /\ BindScope(i) = s} IN IF S = {} THEN 0 ELSE MaxOf(S)
 RefImports ==
-  {[s |-> t[1], n |-> t[2], l |-> LastImport(t[1], t[2]), p |-> ImpPath(P[LastImport(t[1], t[2])].x, t[2])] : t \in {u \in Scopes \X Names : LastImport(u[1], u[2]) # 0}}
+  {[s |-> t[1], n |-> t[2], l |-> LastImport(t[1], t[2]), p |-> ImpPath(P[LastImport(t[1], t[2])].x, t[2])] : t \in {u \in Scopes \X dom.names : LastImport(u[1], u[2]) # 0}}
 RECURSIVE Concat(_)
 Concat(ss) == IF ss = <<>> THEN <<>> ELSE Head(ss) \o Concat(Tail(ss))
 RefExports ==
@@ -405,7 +433,7 @@ Hazards ==
         THEN {"label-inherit"} ELSE {})
 
 \* ---- projections compared by the clauses ------------------------------------------------------------------
-ImplTree == Reach(tree, MaxDepth + 1)
+ImplTree == Reach(tree, dom.depth + 1)
 Core(T) == {[s |-> m.s, n |-> m.n, l |-> m.l, k |-> m.k, p |-> m.p] : m \in T}
 Common(A, Bt) == {m \in A : \E r \in Bt : r.s = m.s /\ r.n = m.n /\ r.l = m.l}
 ImplImports == {r \in imps : r.s = 0 \/ \E c \in ImplTree : c.l = r.s}
@@ -419,23 +447,24 @@ EndModule ==          \* visit_module after generic_visit: on_members, on_module
   /\ phase = "run" /\ outcome = "ok" /\ EOF /\ Len(stack) = 1
   /\ events' = Append(events, Ev("members", 0, "-"))
   /\ phase' = "done" /\ res' = Compute
-  /\ UNCHANGED <<prog, cursor, stack, guarded, tree, imps, exps, stash, placed, outcome, flagok>>
+  /\ UNCHANGED <<dom, prog, cursor, stack, guarded, tree, imps, exps, stash, placed, outcome, flagok>>
 Crash ==              \* an exception escaped the visitor
   /\ phase = "run" /\ outcome # "ok"
   /\ phase' = "done" /\ res' = Compute
-  /\ UNCHANGED <<prog, cursor, stack, guarded, tree, imps, exps, stash, events, placed, outcome, flagok>>
+  /\ UNCHANGED <<dom, prog, cursor, stack, guarded, tree, imps, exps, stash, events, placed, outcome, flagok>>
 
 \* ---- environment ----------------------------------------------------------------------------------------
 AddLine ==
-  /\ phase = "build" /\ Len(prog) < MaxLen
+  /\ phase = "build" /\ Len(prog) < dom.len
   /\ \E l \in Lines : CanAppend(prog, l) /\ prog' = Append(prog, l)
-  /\ UNCHANGED <<phase, cursor, stack, guarded, tree, imps, exps, stash, events, placed, outcome, flagok, res>>
+  /\ UNCHANGED <<dom, phase, cursor, stack, guarded, tree, imps, exps, stash, events, placed, outcome, flagok, res>>
 VisitModule ==        \* visit_module: Module(...), on_instance, then generic_visit
   /\ phase = "build" /\ Len(prog) >= 1
   /\ phase' = "run" /\ events' = <<Ev("inst", 0, "-")>>
-  /\ UNCHANGED <<prog, cursor, stack, guarded, tree, imps, exps, stash, placed, outcome, flagok, res>>
+  /\ UNCHANGED <<dom, prog, cursor, stack, guarded, tree, imps, exps, stash, placed, outcome, flagok, res>>
 
 Init ==
+  /\ dom \in Domains
   /\ prog = <<>> /\ phase = "build" /\ cursor = 1
   /\ stack = <<[t |-> "module", l |-> 0, bd |-> 0, part |-> "body"]>>
   /\ guarded = FALSE /\ tree = {} /\ imps = {} /\ exps = NoAll /\ stash = {}
@@ -481,10 +510,16 @@ EvMembersLast == (Ok /\ Demand({"init-local"})) => \A c \in {o[3] : o \in placed
    LET M == {q \in 1..Len(events) : events[q].e = "members" /\ events[q].l = c}
    IN /\ Cardinality(M) = 1
       /\ \A o \in placed : o[3] = c => \A q \in Announce(o) : \A r \in M : q < r
+\* the same clause as an acceptor (EventProtocol.tla), shared with the validation of real traces (VisitorTrace.tla)
+RECURSIVE Fold(_, _)
+Fold(st, evs) == IF evs = <<>> THEN st ELSE Fold(Step(st, Head(evs)), Tail(evs))
+EventsAccepted == (Ok /\ Demand({"init-local"})) => Final(Fold(Start, events)) = "ok"
+
 Pack(l) == <<l.k, l.x, l.n, l.d>>
 EmitCase ==
   (Emit /\ Done) =>
-    PrintT(<<"CASE", ToJson([prog |-> [i \in 1..Len(prog) |-> Pack(prog[i])], outcome |-> outcome, wf |-> res.wf, hz |-> res.hz,
+    PrintT(<<"CASE", ToJson([dom |-> dom.name, prog |-> [i \in 1..Len(prog) |-> Pack(prog[i])], outcome |-> outcome, wf |-> res.wf, hz |-> res.hz,
                              ref |-> res.ref, rimps |-> res.rimps, rexps |-> res.rexps,
-                             impl |-> res.impl, iimps |-> res.iimps, iexps |-> exps, events |-> events, flagok |-> flagok])>>)
+                             impl |-> res.impl, iimps |-> res.iimps, iexps |-> exps,
+                             events |-> [q \in 1..Len(events) |-> [e |-> events[q].e, l |-> events[q].l, n |-> events[q].n]], flagok |-> flagok])>>)
 =============================================================================
